@@ -36,6 +36,7 @@ CONSTANTS
   WithDNSFail = %(dnsfail)s
   SlowSet = {%(slow)s}
   CnSet = {%(cn)s}
+  QuitSet = {%(quit)s}
   Devs = {%(devs)s}
   Gen = %(gen)s
 %(tail)s
@@ -52,11 +53,11 @@ def q(xs):
 
 def cfg(spec="Spec", polsets="AllPolSets", mintls=(0, 1, 2), minmx=(0, 1, 2), override=("TRUE", "FALSE"),
         sts=("none", "testing", "enforce"), stlscert="AllStlsCert", tlsa="AllTlsa", nmx=(1,), kinds="Kinds4",
-        maxmsgs=3, dnsfail=True, slow=("FALSE",), cn=("no",), devs=(), gen=False, tail=MC_TAIL):
+        maxmsgs=3, dnsfail=True, slow=("FALSE",), cn=("no",), quit=("bye",), devs=(), gen=False, tail=MC_TAIL):
     return CFG % dict(spec=spec, polsets=polsets, mintls=", ".join(map(str, mintls)),
                       minmx=", ".join(map(str, minmx)), override=", ".join(override), sts=q(sts),
                       stlscert=stlscert, tlsa=tlsa, nmx=", ".join(map(str, nmx)), kinds=kinds,
-                      maxmsgs=maxmsgs, dnsfail="TRUE" if dnsfail else "FALSE", slow=", ".join(slow), cn=q(cn), devs=q(devs),
+                      maxmsgs=maxmsgs, dnsfail="TRUE" if dnsfail else "FALSE", slow=", ".join(slow), cn=q(cn), quit=q(quit), devs=q(devs),
                       gen="TRUE" if gen else "FALSE", tail=tail)
 
 
@@ -181,6 +182,15 @@ def run(ctx, replay):
                  ("gen-dane", cfg(polsets="DaneOnly", mintls=(0, 2), minmx=(0,), override=("TRUE",),
                                   stlscert="AllStlsCert", tlsa="AllTlsa", nmx=(1,), kinds="Kinds1", maxmsgs=1,
                                   dnsfail=False, gen=True, tail=GEN_TAIL)),
+                 # a REQUIRETLS message whose first recipient domain has an MX without the REQUIRETLS extension
+                 ("gen-pre", cfg(polsets="StsDnssecSets", mintls=(0,), minmx=(0, 1), override=("TRUE",),
+                                 sts=("none", "testing"), stlscert="QuickStlsCert", nmx=(1,), kinds="KindsPreFocus",
+                                 maxmsgs=2, dnsfail=False, gen=True, tail=GEN_TAIL)),
+                 # how the MX answers the QUIT that follows a refusal by the policies
+                 ("gen-quit", cfg(polsets="LocalOnly", mintls=(1, 2), minmx=(0,), override=("TRUE",),
+                                  stlscert="QuickStlsCert", nmx=(1,), kinds="Kinds3", maxmsgs=2, dnsfail=False,
+                                  quit=("bye", "busy", "drop", "silent") if thorough else ("busy", "drop"),
+                                  gen=True, tail=GEN_TAIL)),
                  # quarantined after RCPT x {Body, BodyNonAtomic}
                  ("gen-lateq", cfg(polsets="LocalOnly", mintls=(0,), minmx=(0,), override=("TRUE",),
                                    stlscert="TwoStlsCert", nmx=(1,), kinds="KindsQ", maxmsgs=2, dnsfail=False,
@@ -232,6 +242,7 @@ def run(ctx, replay):
     # ---- replay on the real remote.Target ------------------------------------------------
     binary = ctx.build_harness("remotecheck")
     events = ctx.run_shards(binary, behs, shards=min(vlib.NCPU, 8))
+    events = [e for e in events if e.get("mx") != 0]      # the other recipient domain of "pre" messages
     by_id = {b["id"]: b for b in behs}
 
     # binding self-test: a corrupted and a truncated copy of an accepted trace
